@@ -312,6 +312,8 @@ def main(argv=None):
     level = getattr(mod, 'LEVEL', 'proof')
     all_discharged = (n_dis == n_obl and not undecided)
     ev_level = level if (all_discharged or level != 'proof') else 'other'
+    if known_hit and ev_level == 'proof':
+        ev_level = 'other'          # a property with a standing recorded finding is never reported as proved
     trusted = []
     TR = getattr(mod, 'TRUSTED', None)
     from contracts import common
